@@ -1367,8 +1367,42 @@ def replay_case(ctx, run_, case):
         replay_edits(ctx, run_, case)
     elif st == 'builder':
         replay_builder(ctx, run_, case)
+    elif st == 'probe':
+        probe_statevector_radixes(ctx)
+    elif st == 'iter_end_past':
+        replay_end_past(ctx, case)
     else:
         ctx.count('corpus_skipped_' + str(st))
+
+
+def replay_end_past(ctx, case):
+    """directed witness of C06-F2: an `end` beyond the last cycle is clipped, not an IndexError"""
+    from bqskit.ir.circuit import Circuit
+    import bqskit.ir.gates as G
+    c = Circuit(case['n'])
+    for nm, loc in case['ops']:
+        c.append_gate(getattr(G, nm)(), loc)
+    ctx.case(case, nontrivial=True)
+    for q in case['queries']:
+        kw = {}
+        if 'end' in q:
+            kw['end'] = tuple(q['end'])
+        if 'qudits' in q:
+            kw['qudits_or_region'] = q['qudits']
+        if q.get('reverse'):
+            kw['reverse'] = True
+        inrange = dict(kw)
+        inrange['end'] = (c.num_cycles - 1, kw['end'][1] if kw['end'][0] < c.num_cycles else c.num_qudits - 1)
+        try:
+            got = [(cy, tuple(op.location)) for cy, op in c.operations_with_cycles(**kw)]
+            exp = [(cy, tuple(op.location)) for cy, op in c.operations_with_cycles(**inrange)]
+        except Exception as e:   # noqa
+            ctx.violation(dict(call='CircuitIterator', symptom='end_past_last_cycle_raises'), dict(case, query=q), 'clipped sequence',
+                          exc_name(e) + ': ' + str(e)[:100], 'restricted iteration raised')
+            continue
+        if got != exp:
+            ctx.violation(dict(call='CircuitIterator', symptom='wrong_operations'), dict(case, query=q), [list(map(str, e)) for e in exp],
+                          [list(map(str, e)) for e in got], 'an end beyond the last cycle is not equivalent to the last point of the circuit')
 
 
 def replay_edits(ctx, run_, case):
@@ -1434,12 +1468,75 @@ def replay(ctx, data):
     from bqskit.ir.circuit import Circuit  # noqa: F401
     run_ = Run(ctx)
     case = data.get('case', {})
-    if isinstance(case, dict) and case.get('stream') in ('exact', 'float', 'param_edits', 'builder'):
+    if isinstance(case, dict) and case.get('stream') in ('exact', 'float', 'param_edits', 'builder', 'probe', 'iter_end_past'):
         replay_case(ctx, run_, case)
         run_.flush()
     elif isinstance(case, dict) and case.get('stream') == 'iteration':
-        ctx.count('iteration_replay_not_supported')
+        replay_iteration(ctx, case)
     elif isinstance(case, dict) and case.get('in_state'):
         probe_statevector_radixes(ctx)
+    else:
+        ctx.broken_obligation('replay: unknown case format', str(case)[:300])
 
 
+def replay_iteration(ctx, case):
+    """rebuild a circuit with the recorded grid (one gate per recorded location, cycle by cycle) and re-ask"""
+    from bqskit.ir.circuit import Circuit
+    from bqskit.ir.gates import XGate, CNOTGate, CCXGate
+    from bqskit.ir.region import CircuitRegion
+    n = case['n']
+    c = Circuit(n)
+    gates = {1: XGate(), 2: CNOTGate(), 3: CCXGate()}
+    for cy, row in enumerate(case['grid']):
+        seen = set()
+        for loc in row:
+            if loc is not None and tuple(loc) not in seen:
+                seen.add(tuple(loc))
+                c.append_gate(gates[len(loc)], loc)
+    grid = [[None if o is None else list(o.location) for o in row] for row in c._circuit]
+    if grid != case['grid']:
+        ctx.broken_obligation('replay: recorded grid cannot be rebuilt by appending', str(case['grid'])[:300])
+        return
+    a = case['args']
+    kw = dict(exclude=a.get('exclude', False), reverse=a.get('reverse', False))
+    if 'start' in a:
+        kw['start'] = tuple(a['start'])
+    if 'end' in a:
+        kw['end'] = tuple(a['end'])
+    qudits = list(range(n))
+    nc = c.num_cycles
+    bounds = {q: (0, nc) for q in qudits}
+    if 'qudits' in a:
+        qudits = a['qudits']
+        kw['qudits_or_region'] = qudits
+        bounds = {q: (0, nc) for q in qudits}
+    if 'region' in a:
+        bounds = {int(q): tuple(b) for q, b in a['region'].items()}
+        kw['qudits_or_region'] = CircuitRegion(bounds)
+        qudits = list(bounds)
+    ctx.case(case, nontrivial=True)
+    try:
+        got = [(cy, tuple(op.location)) for cy, op in c.operations_with_cycles(**kw)]
+    except Exception as e:   # noqa
+        ctx.violation(dict(call='CircuitIterator', symptom='raises'), case, 'a sequence', exc_name(e) + ': ' + str(e)[:100], 'restricted iteration raised')
+        return
+    start = tuple(kw.get('start', (0, 0)))
+    end = tuple(kw.get('end', (nc - 1, n - 1)))
+    pts = [(cy, q) for cy in range(nc) for q in sorted(qudits) if start <= (cy, q) <= end and bounds[q][0] <= cy <= bounds[q][1]]
+    if kw['reverse']:
+        pts = pts[::-1]
+    exp, seen = [], set()
+    for cy, q in pts:
+        op = c._circuit[cy][q]
+        if op is None or (cy, id(op)) in seen:
+            continue
+        seen.add((cy, id(op)))
+        if kw['exclude'] and not all(x in qudits and bounds[x][0] <= cy <= bounds[x][1] for x in op.location):
+            continue
+        exp.append((cy, tuple(op.location)))
+
+    def canon_seq(seq):
+        return [sorted(g) for _, g in itertools.groupby(seq, key=lambda e: e[0])]
+    if canon_seq(got) != canon_seq(exp):
+        ctx.violation(dict(call='CircuitIterator', symptom='wrong_operations'), case, [list(map(str, e)) for e in exp], [list(map(str, e)) for e in got],
+                      'restricted iteration does not return exactly the operations inside the requested area')
